@@ -40,3 +40,11 @@ Theorem C08_conffiles_text_roundtrip : forall ps,
   Forall (fun p => line_ok p = true /\ nonblank p = true) ps -> conffiles_read (conffiles_text ps) = Some ps.
 Proof. exact conffiles_roundtrip. Qed.
 Print Assumptions C08_conffiles_text_roundtrip.
+
+(* ... so a reader of the conffiles member of the model's package finds exactly the plan's configuration paths, which by
+   C08_conffiles_iff_declared are exactly the declared ones *)
+Theorem C08_conffiles_member_lists_the_plan : forall cs,
+  Forall (fun p => line_ok p = true /\ nonblank p = true) (conffiles_model cs) ->
+  conffiles_read (conffiles_text (conffiles_model cs)) = Some (conffiles_model cs).
+Proof. intros cs H. apply conffiles_roundtrip. exact H. Qed.
+Print Assumptions C08_conffiles_member_lists_the_plan.
